@@ -10,9 +10,10 @@ from . import exprharness as X
 from .chrun import Cond, run_conditions, to_obligations, concrete_reach
 
 HEAD = '''# generated harness module (E1, prophyc units) -- no message-formatting stub: str(int) is semantic in the parser
-from vf import pyharness as H, exprharness as X, compharness as K
+from vf import pyharness as H, exprharness as X, compharness as K, acceptharness as A
 H.setup(formatting_stub=True, int_str=True)
 X.parser()
+A.env()
 TABLE = %(table)r
 
 
@@ -60,6 +61,19 @@ def run(tier):
         conds.append(Cond(path, 'tot__%d' % idx, 'expr-total/%s/%s' % (pos, e.replace(' ', '')),
                           dict(check='expression actions total', expression=e, position=pos,
                                symbolic='A (%s), C in [-2^33, 2^33], B in [-3, 5] (zero divisors and negative shift counts included)' % rng), sample_args=[4, 3, 7]))
+    # 2b. the parser's member validation (_validate_struct_members, sizer lookup and sizer type check) is total: whatever the
+    #     member description, it records designed errors and never lets an internal exception out (the coherence of what it
+    #     accepts is C12's subject and is ignored here)
+    from . import acceptharness as A
+    ext = A.FORMS.index('ext')
+    for a in ([0] if tier == 'quick' else range(len(A.TYPES))):
+        for sp in range(4):
+            fn = 'val__%d__%d' % (a, sp)
+            body.append('def %s(t1: int, f1: int, has_post: bool, sizer_t: int) -> bool:\n    """\n    pre: 0 <= t1 < %d and 0 <= f1 < %d and 0 <= sizer_t < %d\n    post: _\n    """\n'
+                        '    A.struct_coherent(%d, %d, t1, f1, has_post, %d, sizer_t, False)\n    return True\n\n' % (fn, len(A.TYPES), len(A.FORMS), len(A.SIZER_T), a, ext, sp))
+            conds.append(Cond(path, fn, 'member-validation-total/%s-ext/sizer-pos%d' % (A.TYPES[a], sp),
+                              dict(check='struct member validation is total', first_member='%s ext' % A.TYPES[a], sizer_position=sp,
+                                   symbolic='second member type and form, trailing member, sizer type (integer, float, enum, struct, typedef)'), sample_args=[0, 0, True, 2]))
     # 3. include resolution
     inc = ['i%d' % k for k in range(9)]
     body.append('def incl__3(%s, ex1: bool, ex2: bool, d1: bool, d2: bool) -> bool:\n    """\n    post: _\n    """\n'
